@@ -57,9 +57,28 @@ def guarded(fn):
         return None, exc_name(e)
 
 
+def query_noise(ix, driver, i):
+    """Between two requests of a history, a sample of read-only requests of every OTHER kind (answers ignored):
+    whatever a query leaves behind in a long-lived object is then there when the next request runs."""
+    import random
+    rr = random.Random(i * 7919 + len(getattr(ix, "pool", ())))
+    if rr.random() < 0.45:
+        return
+    calls, e = guarded(lambda: readonly_calls(ix, driver, i, limit=5))
+    if not calls:
+        return
+    we = [c for c in calls if c[0].startswith(("get_webentity", "get_webentities", "paginate"))]
+    other = [c for c in calls if c not in we]
+    always = [c for c in we if c[0] == "get_webentity_pages"]      # the commonest request: for every webentity
+    for name, fn in always + rr.sample(we, min(9, len(we))) + rr.sample(other, min(5, len(other))):
+        guarded(fn)
+
+
 def wrap(body):
     def hook(ix, driver, i, op, res):
         note_pool(ix, op)
+        if op is None or op.get("op") not in ("CoopBegin", "CoopNext"):
+            query_noise(ix, driver, i)
         del impl.WRITE_LOG[:]
         q = body(ix, driver, i, op, res)
         q["wrote"] = len(impl.WRITE_LOG)
